@@ -46,7 +46,7 @@ PROCS = int(os.environ.get('C17_PROCS', '8'))
 # ---------------------------------------------------------------------------------------------
 # binding table: character ids of spec/JsonChars.tla -> characters
 CH = {1: 'a', 2: '"', 3: '\\', 4: '/', 5: 'n', 6: 'u', 7: '\n', 8: '\x01', 9: '\x7f', 10: '\U0001F600',
-      11: '�', 50: '\ud83d', 51: '\ude00'}
+      11: '�', 12: '\ufeff', 13: '\u2028', 14: '\u2029', 15: '\x85', 16: '\xa0', 17: '\ufffe', 18: '\uffff', 50: '\ud83d', 51: '\ude00'}
 CH.update({20 + i: str(i) for i in range(10)})
 CH.update({30 + i: 'ABCDEF'[i] for i in range(6)})
 CH.update({41 + i: 'bcdef'[i] for i in range(5)})
@@ -73,20 +73,25 @@ XML_CFGS = set(STATIC)
 JSON_CFGS = {'default', 'base-abs', 'xsd11'}
 
 
+BASE = set(range(1, 11))                 # SourceChars of spec/JsonChars.tla
+SPECIALS = {1} | set(range(12, 19))      # 'a' + SpecialChars: raw U+FEFF U+2028 U+2029 U+0085 U+00A0 U+FFFE U+FFFF
 TIERS = {
-    'quick': dict(strings=[('all2', dict(MaxLen=2, FormMode='all', Pols=set())),
-                           ('pol3', dict(MaxLen=3, FormMode='policy', Pols={'canon', 'U', 'py'}, _replay_pols=('canon', 'U')))],
+    'quick': dict(strings=[('all2', dict(MaxLen=2, Alpha=BASE, FormMode='all', Pols=set())),
+                           ('pol3', dict(MaxLen=3, Alpha=BASE, FormMode='policy', Pols={'canon', 'U', 'py'}, _replay_pols=('canon', 'U'))),
+                           ('special3', dict(MaxLen=3, Alpha=SPECIALS, FormMode='policy', Pols={'min', 'py'}, _replay_pols=('min',)))],
                   model=dict(Universe='quick', MaxDepth=8, StaticCfgs=JSON_CFGS),
                   xml=[('N3', dict(N=3, Kinds={"ea", "eb", "t", "c", "p", "xa", "xc"}, RootCfg="R1", StaticCfgs=XML_CFGS,
-                                   PrologMode='all'))]),
-    'thorough': dict(strings=[('all3', dict(MaxLen=3, FormMode='all', Pols=set())),
-                              ('pol3', dict(MaxLen=3, FormMode='policy', Pols={'canon', 'min', 'U', 'l', 'py'})),
-                              ('pol4', dict(MaxLen=4, FormMode='policy', Pols={'canon', 'U'}))],
+                                   PrologMode='all', Alphabets={'ascii', 'astral'}))]),
+    'thorough': dict(strings=[('all3', dict(MaxLen=3, Alpha=BASE, FormMode='all', Pols=set())),
+                              ('pol3', dict(MaxLen=3, Alpha=BASE, FormMode='policy', Pols={'canon', 'min', 'U', 'l', 'py'})),
+                              ('pol4', dict(MaxLen=4, Alpha=BASE, FormMode='policy', Pols={'canon', 'U'})),
+                              ('special3', dict(MaxLen=3, Alpha=SPECIALS | {2, 3}, FormMode='policy', Pols={'canon', 'min', 'py'})),
+                              ('special2all', dict(MaxLen=2, Alpha=SPECIALS | {2, 3}, FormMode='all', Pols=set()))],
                      model=dict(Universe='thorough', MaxDepth=8, StaticCfgs=JSON_CFGS),
                      xml=[('N3', dict(N=3, Kinds={"ea", "eb", "t", "c", "p", "xa", "xc"}, RootCfg="R1", StaticCfgs=XML_CFGS,
-                                      PrologMode='all')),
+                                      PrologMode='all', Alphabets={'ascii', 'latin', 'astral'})),
                           ('N4', dict(N=4, Kinds={"ea", "eb", "t", "c", "p", "xa", "xc"}, RootCfg="R1",
-                                      StaticCfgs={'default', 'base-abs', 'ns-default', 'origin-cdata'}, PrologMode='none'))]),
+                                      StaticCfgs={'default', 'base-abs', 'ns-default', 'origin-cdata'}, PrologMode='none', Alphabets={'ascii', 'latin'}))]),
 }
 
 
@@ -840,7 +845,17 @@ SPECIAL = '1 > 0 & ]]> <x> "q" \'%d'
 TEXTS = {'plain': 't%d', 'special': SPECIAL, 'markup': '<&>"\'%d', 'nonnfc': NONNFC + '%d', 'big8k': BIG * 900 + '%d', 'big64k': BIG * 7000 + '%d'}
 ATTVALS = {'plain': 'v%d', 'special': SPECIAL, 'markup': '<&>"\'\n\t%d', 'nonnfc': NONNFC + '%d', 'big8k': BIG * 900 + '%d',
            'big64k': BIG * 7000 + '%d'}
-CONTENT_VARIANTS = ('markup', 'nonnfc', 'big8k', 'big64k', 'special')
+# binding of the constant Alphabets of spec/XmlRoundTrip.tla (variable alpha): the character that every NAME (element,
+# attribute, PI target) and every CONTENT (text, attribute value, comment, PI) carries
+ALPHA_CH = {'latin': '\u00e9', 'astral': '\u00e9\U00010400'}
+# names: expat (xml.etree) does not accept supplementary-plane characters in names (a limitation of that library,
+# not of the code under test): the 'astral' alphabet has them in names with lxml only (variant astral-bmpnames)
+ALPHA_NAME = {'latin': '\u00e9', 'astral': '\U00010400', 'astral-bmpnames': '\u00e9'}
+ALPHA_CH['astral-bmpnames'] = ALPHA_CH['astral']
+for _a, _c in ALPHA_CH.items():
+    TEXTS[_a] = 't' + _c + '%d' + _c
+    ATTVALS[_a] = 'v' + _c + '%d' + _c
+CONTENT_VARIANTS = ('markup', 'nonnfc', 'big8k', 'big64k', 'special') + tuple(ALPHA_CH)
 
 
 def expected_tree(parent2, kind2, first: int, variant: str):
@@ -850,8 +865,11 @@ def expected_tree(parent2, kind2, first: int, variant: str):
     atts: dict = {i: [] for i in range(1, n + 1)}
     cont = variant if variant in CONTENT_VARIANTS else 'plain'
 
+    ach = ALPHA_CH.get(variant, '')
+    nch = ALPHA_NAME.get(variant, '')
+
     def name(k):
-        nm = {'ea': 'a', 'eb': 'b', 'xa': 'a', 'xc': 'c'}[k]
+        nm = {'ea': 'a', 'eb': 'b', 'xa': 'a', 'xc': 'c'}[k] + nch
         if variant == 'ns' and k in ('eb', 'xc'):
             return '{%s}%s' % (NS_B, nm)
         return nm
@@ -864,8 +882,8 @@ def expected_tree(parent2, kind2, first: int, variant: str):
         if k == 't':
             return ['t', TEXTS[cont] % orig]
         if k == 'c':
-            return ['c', 'c%d' % orig]
-        return ['p', 'p', 'p%d' % orig]
+            return ['c', ach + 'c%d' % orig + ach]
+        return ['p', 'p' + nch, ach + 'p%d' % orig + ach]
 
     for i in range(2, n + 1):
         k = kind2[i - 1]
@@ -924,6 +942,24 @@ def make_doc(parent, kind, lib: str, variant: str) -> Doc:
             for k in el:
                 if k.tail and k.tail[:1] == 't':
                     k.tail = TEXTS[variant] % int(k.tail[1:])
+    if variant in ALPHA_CH:
+        ach, nch = ALPHA_CH[variant], ALPHA_NAME[variant]
+        for el in d.root.iter():
+            if callable(el.tag):
+                if 'Comment' in getattr(el.tag, '__name__', ''):
+                    el.text = ach + el.text + ach
+                elif hasattr(el, 'target'):          # lxml
+                    el.target, el.text = el.target + nch, ach + el.text + ach
+                else:                                # xml.etree: text = target + ' ' + content
+                    t, _, c = el.text.partition(' ')
+                    el.text = t + nch + ' ' + ach + c + ach
+                continue
+            el.tag = el.tag + nch
+            items = list(el.attrib.items())
+            for k, _ in items:
+                del el.attrib[k]
+            for k, v in items:
+                el.set(k + nch, v)
     return d
 
 
@@ -954,9 +990,10 @@ def xml_case(case: dict):
     exp_prolog = []
     for j, k in enumerate(prolog):        # children of the document node before the root element (lxml only)
         import lxml.etree as LX
-        leaf = LX.Comment(f'c0{j}') if k == 'c' else LX.ProcessingInstruction('p', f'p0{j}')
+        ach, nch = ALPHA_CH.get(case['variant'], ''), ALPHA_NAME.get(case['variant'], '')
+        leaf = LX.Comment(f'{ach}c0{j}{ach}') if k == 'c' else LX.ProcessingInstruction('p' + nch, f'{ach}p0{j}{ach}')
         d.root.addprevious(leaf)
-        exp_prolog.append(['c', f'c0{j}'] if k == 'c' else ['p', 'p', f'p0{j}'])
+        exp_prolog.append(['c', f'{ach}c0{j}{ach}'] if k == 'c' else ['p', 'p' + nch, f'{ach}p0{j}{ach}'])
     root = d.tree if case['root'] == 'doc' else d.root
     rank = sum(1 for i in range(1, ctx + 1) if kind[i - 1] in ('ea', 'eb'))
     xvars = None
@@ -1115,7 +1152,7 @@ def run(chk: core.Check) -> None:
         wd = os.path.join(chk.scratch, 'xr-' + name)
         jobs.append(('XmlRoundTrip', name, consts, wd, tla.cfg_text(consts, invariants=['RLaws'])))
     diag_wd = os.path.join(chk.scratch, 'js-diag')
-    diag_cfg = tla.cfg_text(dict(MaxLen=2, FormMode='policy', Pols={'canon'}), invariants=['ImplConfluentBMP'])
+    diag_cfg = tla.cfg_text(dict(MaxLen=2, Alpha=BASE, FormMode='policy', Pols={'canon'}), invariants=['ImplConfluentBMP'])
 
     def tlc(job):
         mod, name, consts, wd, cfg = job
@@ -1163,7 +1200,13 @@ def run(chk: core.Check) -> None:
                 raise tla.MachineryError('XmlRoundTrip: static configurations / prologs of the dump do not match the binding table')
             for s in done:
                 cfg, prolog = s['cfg'], list(s['prolog'])
-                if prolog:            # children of the document node before the root: representable with lxml only
+                if s['alpha'] != 'ascii':
+                    if s['alpha'] not in ALPHA_CH or cfg != 'default':
+                        raise tla.MachineryError(f"XmlRoundTrip: alphabet {s['alpha']} / configuration {cfg} not in the binding table")
+                    combos = ([('lxml', s['alpha'], 'doc')] if prolog else
+                              [(lib, s['alpha'] + ('-bmpnames' if lib == 'etree' and s['alpha'] == 'astral' else ''), rk)
+                               for lib in ('etree', 'lxml') for rk in (('doc',) if s['ctx'] == 0 else ('doc', 'elem'))])
+                elif prolog:            # children of the document node before the root: representable with lxml only
                     if cfg.startswith('origin-') or (chk.tier == 'quick' and cfg not in ('default', 'base-abs')):
                         continue      # (the source text of the origin-* configurations has no prolog)
                     combos = [('lxml', 'plain', 'doc')]
